@@ -152,3 +152,21 @@ def build_model(broken):
     if not ok:
         broken.append("model/CqlCases.v or a dependency does not build: " + log[-500:])
     return ok
+
+
+def malformed_correspondence(seed, n=1500, shards=8):
+    """datacodec half of C04: run `harness-cql malformed n` (real decoders on mutated encodings, recover()) and compare the outcome
+    class ok/err/panic of every mutant with the model's decode_class inside coqc.
+    Returns dict(cases=, skipped=, panics=[records], mismatches=[ids], ok=bool, log=str, by_class={}).
+    The model statement to cite next to it: proofs/CqlContainerProofs.decode_no_panic (forall v t src, m_decode v t src <> PANIC)."""
+    rc, recs, err = harness_records("malformed", [n], seed)
+    ran = [r for r in recs if r["kind"] == "malformed"]
+    skipped = [r for r in recs if r["kind"] == "malformed-skipped"]
+    cls = {"ok": "COk", "err": "CErr", "panic": "CPanic"}
+    cases = [(r["id"], 'class_eqb (decode_class %d %s (Some (hx "%s"))) %s' % (r["ver"], r["type_coq"], r["hex"], cls.get(r["class"], "CPanic"))) for r in ran]
+    ok, bad, log = eval_cases("Cases_C04_cql", [], cases, shards=shards)
+    by = {}
+    for r in ran:
+        by[r["class"]] = by.get(r["class"], 0) + 1
+    return {"cases": len(ran), "skipped": len(skipped), "panics": [r for r in ran if r["class"] == "panic"], "mismatches": bad,
+            "ok": ok and rc == 0, "log": (err if rc != 0 else "") + log, "by_class": by, "records": {r["id"]: r for r in ran}}
